@@ -18,7 +18,7 @@ names = sorted(os.listdir(os.path.join(V, "seeded")))
 for n in names:
     m = json.load(open(os.path.join(V, "seeded", n, "meta.json")))
     db = m["detected_by"]
-    first = "caught as first written" if ("as first written" in db or db.startswith(m["property"] + " quick")) else "missed first, check strengthened"
+    first = "missed, still open" if db.startswith("NOT CAUGHT") else "caught as first written" if ("as first written" in db or db.startswith(m["property"] + " quick")) else "missed first, check strengthened"
     seeds += "| `%s` | %s | %s | %s |\n" % (n, m["property"], first, db.replace("|", "/"))
 def repl(header, body, s):
     i = s.index(header)
